@@ -253,4 +253,7 @@ pub fn generate(s: &mut Session, tier: &str, rng: &mut Rng) {
     if let Some(mut cr) = crate::craft::Crafter::new() {
         crate::c10::udp_rules(s, &mut cr, rng);
     }
+    // authentic answers written for another session of the same key, spliced onto this session's socket (fresh and stale
+    // packet ids, before and after own answers): released to nobody
+    crate::c11::codec_histories(s, rng, false);
 }
